@@ -20,6 +20,7 @@ import (
 
 type CheckCfg struct {
 	Pkg            string   `json:"pkg"`
+	NonTermViol    bool     `json:"nontermination_is_violation"` // the property claims termination: a path that exceeds the instruction bound is a violation, not an inconclusive run
 	SkipInit       []string `json:"skip_init"`  // import paths whose package initialiser is not executed (see gSkipInit)
 	ExtraPkgs      []string `json:"extra_pkgs"` // further packages holding Verif<ID>_* harnesses of this property
 	Title          string   `json:"title"`
@@ -193,6 +194,7 @@ func cmdCheck(args []string) int {
 	for _, p := range cfg.SkipInit {
 		gSkipInit[p] = true
 	}
+	gNonTermViolation = cfg.NonTermViol
 	ld, err := loadPackage(cfg.Pkg, ov)
 	if err != nil {
 		fmt.Println("ERROR: load:", err)
@@ -345,11 +347,45 @@ func cmdCheck(args []string) int {
 		for _, r := range results {
 			vecs = append(vecs, r.Vectors...)
 		}
-		var viols []*Violation
+		var viols, hangs []*Violation
 		for _, r := range results {
-			viols = append(viols, r.Violations...)
+			for _, v := range r.Violations {
+				if v.Kind == "nontermination" {
+					hangs = append(hangs, v) // replayed one by one under a short deadline, see below
+				} else {
+					viols = append(viols, v)
+				}
+			}
 		}
 		h0 := &Harness{Tier: tierN, KnownActive: knownActive}
+		// a path that does not terminate in the engine must not terminate natively either: run its vector alone
+		// with a 60 s test deadline; "no result" (the test binary was killed by its deadline) confirms it
+		for i, v := range hangs {
+			vec := violationVector(h0, v)
+			if i >= 2 {
+				confirmed = append(confirmed, v) // same harness and label as one replayed above (violations are deduplicated per label)
+				replayPaths = append(replayPaths, "")
+				continue
+			}
+			gNativeTimeout = "60s"
+			nres, err := runNative(ov, fnPkg[v.Harness], []*Vector{vec})
+			gNativeTimeout = "20m"
+			if err == nil && len(nres) == 1 && (nres[0].Status == "ok" || strings.HasPrefix(nres[0].Status, "assert:")) {
+				fmt.Printf("  UNCONFIRMED non-termination (engine bug or bound too small): %s [%s] native=%s vector=%v\n", v.Harness, v.Label, nres[0].Status, vec.Values)
+				exit = 2
+				continue
+			}
+			st := "timeout: the native run did not finish within 60 s"
+			if err == nil && len(nres) == 1 && strings.HasPrefix(nres[0].Status, "panic:") && !strings.Contains(nres[0].Status, "timed out") {
+				st = nres[0].Status // e.g. stack overflow of an endless recursion
+			}
+			confirmed = append(confirmed, v)
+			p, err := writeReplay(id, fnPkg[v.Harness], v, vec, st)
+			if err != nil {
+				fmt.Println("  ERROR writing replay:", err)
+			}
+			replayPaths = append(replayPaths, p)
+		}
 		for _, v := range viols {
 			vecs = append(vecs, violationVector(h0, v))
 		}
